@@ -60,9 +60,9 @@ func closeEnough(a, b *big.Rat) bool {
 	d := new(big.Rat).Sub(a, b)
 	d.Abs(d)
 	m := new(big.Rat).Abs(a)
-	// stated tolerance: 2 ulp of a double (2^-51 relative)
-	tol := new(big.Rat).Mul(m, new(big.Rat).SetFrac(big.NewInt(1), new(big.Int).Lsh(big.NewInt(1), 51)))
-	return d.Cmp(tol) <= 0
+	// no tolerance since the D48 repair: .decimal() rounds exactly, as the model does
+	_ = m
+	return false
 }
 
 func checkMethodFacts(c MethodCase) (*Violation, methodFacts) {
@@ -213,6 +213,16 @@ func methodGrid() []MethodCase {
 			for _, repr := range []string{"num", "f64", "str"} {
 				out = append(out, MethodCase{Chain: m, Value: Operand{repr, n}})
 			}
+		}
+	}
+	// .decimal(p,s) where num*10^s reaches 2^53, where the scale is beyond 308, and decimal ties that are not binary ties
+	for _, x := range []struct {
+		n    string
+		p, s int
+	}{{"95", 22, 20}, {"12345.678", 38, 20}, {"1000000000000000.5", 17, 1}, {"2147483647", 38, 23}, {"1.7e-309", 10, 309}, {"4e-311", 10, 310}, {"5e-324", 1, 323}, {"2.5e-320", 5, 320},
+		{"1.005", 10, 2}, {"1.015", 10, 2}, {"1.115", 10, 2}, {"2.675", 10, 2}, {"0.285", 10, 2}, {"-1.005", 10, 2}, {"0.145", 5, 2}, {"8.345", 5, 2}, {"1e22", 30, 5}, {"123456789012345678", 30, 10}, {"0.1", 25, 20}, {"950", 1, -2}, {"99.96", 3, 1}} {
+		for _, repr := range []string{"f64", "num", "str"} {
+			out = append(out, MethodCase{Chain: fmt.Sprintf(".decimal(%d,%d)", x.p, x.s), Value: Operand{repr, x.n}}, MethodCase{Chain: fmt.Sprintf(".decimal(%d,%d).string()", x.p, x.s), Value: Operand{repr, x.n}})
 		}
 	}
 	// datetime items through .string() and .type()
